@@ -128,6 +128,7 @@ type Exec struct {
 	notes      []Value
 	canary     bool
 	clock      int64
+	workers    int
 	witness    map[string]string
 }
 
@@ -296,6 +297,14 @@ func (ex *Exec) drainEager(cur *Thread) {
 	}
 }
 
+func (ex *Exec) nextWorkerName() string {
+	ex.workers++
+	if ex.workers == 1 {
+		return "worker"
+	}
+	return fmt.Sprintf("worker%d", ex.workers)
+}
+
 func (ex *Exec) runnable(except *Thread) []*Thread {
 	var out []*Thread
 	for _, t := range ex.threads {
@@ -313,9 +322,10 @@ func (ex *Exec) reschedule(cur *Thread, why string) {
 		// an eager helper gives the baton back to whoever let it run
 		back := cur.resumeTo
 		cur.resumeTo = nil
+		finished := cur.state == tsDone
 		ex.cur = back
 		back.wake <- struct{}{}
-		if cur.state != tsDone {
+		if !finished {
 			cur.park()
 		}
 		return
@@ -371,9 +381,12 @@ func (ex *Exec) switchTo(cur, next *Thread) {
 	if next == cur {
 		return
 	}
+	// read cur's state before the baton leaves: afterwards next runs concurrently with
+	// the rest of this function (and may, e.g., crash cur's generation)
+	finished := cur.state == tsDone
 	ex.cur = next
 	next.wake <- struct{}{}
-	if cur.state != tsDone {
+	if !finished {
 		cur.park()
 	}
 }
@@ -411,7 +424,7 @@ func (th *Thread) yield(site string) {
 		nAlt += len(others)
 	}
 	crashAlt := -1
-	if ex.cfg.Crash && !ex.crashed && th.id != 0 {
+	if ex.cfg.Crash && !ex.crashed && th.id != 0 && ex.preemptions < ex.cfg.Preemptions {
 		crashAlt = nAlt
 		nAlt++
 	}
@@ -434,6 +447,7 @@ func (th *Thread) yield(site string) {
 // doCrash kills all threads of the current generation except main, and wakes main.
 func (ex *Exec) doCrash(cur *Thread, site string) {
 	ex.crashed = true
+	ex.preemptions++ // a crash spends one unit of the pre-emption budget
 	ex.gen++
 	ex.schedLog = append(ex.schedLog, SchedStep{Thread: cur.name, Stop: "crash", Site: site, N: cur.yields})
 	var main *Thread
@@ -849,7 +863,11 @@ func (th *Thread) selectOp(fr *frame, instr *ssa.Select) Value {
 		th.block("select")
 		w := ss.fired
 		if w == nil {
-			panic("select woke without a fired case")
+			var sb strings.Builder
+			for _, st := range ex.schedLog {
+				sb.WriteString(fmt.Sprintf("%s:%s ", st.Thread, st.Stop))
+			}
+			panic(fmt.Sprintf("select woke without a fired case (thread %s state %d crashed=%v) sched: %s", th.name, th.state, ex.crashed, sb.String()))
 		}
 		// remove the other waiters
 		for _, o := range ss.waiters {
